@@ -119,6 +119,13 @@ def rand_stream(rng, npk, big=False):
                              bc=rng.randrange(0xDEC), trigger=rng.randrange(1, 1 << 32), pages=rng.randrange(4), stop=rng.randrange(2),
                              fmt=rng.choice([0, 2]), detfield=rng.randrange(1 << 32), par=rng.randrange(1 << 16), cru=rng.randrange(4096),
                              dw=rng.randrange(16), res0=rng.choice([0, 0, 7]), sysid=rng.choice([32, 32, 3, 200]))
+        if (link in seen_links and fee in seen_fees) and rng.random() < 0.12:
+            # reserved bits of the FEE id (15, 11, 10, 7, 6) set: another FEE id value of the SAME layer and stave -- a stave filter
+            # selects it, a FEE-id filter for the clean value does not (the filters compare what they document, nothing else)
+            rdh = bytearray(rdh)
+            v = struct.unpack_from("<H", rdh, 2)[0] | rng.choice([0x8000, 0x0800, 0x0400, 0x0080, 0x0040, 0x0C00])
+            struct.pack_into("<H", rdh, 2, v)
+            rdh = bytes(rdh)
         if (link in seen_links and fee in seen_fees) and rng.random() < 0.25:
             # framing depends on offset_to_next / memory_size only: the header-size byte of the RDH0 (vetted on the very first RDH
             # of an input only -- hence not varied on the packet that opens a link / FEE id, which opens the filtered outputs)
